@@ -32,6 +32,8 @@ CLAIMED = {
                 note="The diff is used through C09's contract. stat/listdir arbitrary (may raise at every call); recursion replaced by the function's own contract (finite depth assumed); os.path.join uninterpreted.", ref="4/C10"),
     "C20": dict(text="PARTIAL. Both binary decoders proved by loop invariant for every record count, name length and padding (Inotify._parse_event_buffer incl. the rstrip of the NUL padding; winapi._parse_event_buffer over NextEntryOffset/FileNameLength); WindowsApiEmitter.queue_events: per-record region contract = the action table; FSEventsEmitter.queue_event/_is_recursive_event: a non-recursive watch queues nothing below the root's direct children.",
                 note="FSEventsEmitter.queue_events (flag-coalescing table) is not applicable - relative to Apple's semantics. E4 (struct/ctypes reads), E8 (record layouts), offsets monotone by assumed induction. Two known findings on Windows (removed directory typed as file; rename halves split across reads) are listed in known_findings.json. 'Replaying reproduces the tree' is not decided.", ref="4/C20"),
+    "C18": dict(text="PARTIAL. EventDebouncer under its Condition (rely/guarantee, ghost handled/delivered): while not stopped _events = handled[delivered:]; the callback runs only in a lock hold where should_keep_running() held, with exactly the pending batch in arrival order, nothing twice, nothing after stop(); untimed wait guarded by its predicate; handle_event/stop notify. ProcessWatcher.run: callback at most once, only after the child exited, only if not stopped, only timed waits. AutoRestartTrick._stop_process/_start_process/_restart_process/stop: sequential contracts over a ghost process table.",
+                note="E7, E11 (process table). NOT decided: 'never more than one child alive' across the watcher and event threads (process/process_watcher are not lock-protected), debounce timing beyond 'delivered after a timed wait expired', thread exit on stop() (liveness), ShellCommandTrick (battery only).", ref="4/C18"),
 }
 
 NOT_APPLICABLE = {
